@@ -120,7 +120,7 @@ def run_chunk(binary, check, tier, seed, a, b, valgrind=False):
             break
         d = {"i": begun, "rc": rc, "stderr": err[-6000:], "how": (dead or {}).get("how", "timeout" if rc == -999 else "exit")}
         if dead:
-            d.update({k: dead[k] for k in ("task", "op", "lib") if k in dead})
+            d.update({k: dead[k] for k in ("task", "op", "lib", "kind") if k in dead})
         res["deaths"].append(d)
         cur = begun + 1
     return res
@@ -180,15 +180,7 @@ def replay_plan(binary, planfile_obj, tmpname, valgrind=False, record=False):
     death = None
     if not runs:
         how = (dead or {}).get("how", "timeout" if rc == -999 else "exit%d" % rc)
-        site = "?"
-        try:
-            t, o = int((dead or {}).get("task", -2)), int((dead or {}).get("op", -1))
-            plan = planfile_obj["plan"]
-            ops = plan["setup"] if t < 0 else plan["progs"][t]
-            if 0 <= o < len(ops):
-                site = ops[o]["k"]
-        except (ValueError, KeyError, IndexError):
-            pass
+        site = (dead or {}).get("kind", "?")
         death = {"how": how, "site": site, "stderr": err[-6000:], "rc": rc}
         classes.add(("C09", "crash-" + how, site))
     return classes, h, result, death, (result or {}).get("switches")
@@ -512,9 +504,16 @@ def do_check(check, tier, seed):
     dead_classes = {}
     aborted_foreign = 0
     if check in ("C09", "C18"):
+        first_of = {}
         for key, d in death_runs:
             if d.get("how") == "startup":
                 machinery_errors.append("worker could not start: %s" % d.get("stderr", "")[-500:])
+                continue
+            first_of.setdefault((key, d.get("how", "?"), d.get("kind", "?")), d)
+        for (key, how, kind), d in sorted(first_of.items(), key=lambda kv: (kv[0][1], kv[0][2], kv[0][0])):
+            target = ("C09", "crash-" + how, kind)
+            if check == "C09" and (target in dead_classes or known_match(known, *target)):
+                dead_classes.setdefault(target, (key, d))
                 continue
             pf = dump_plan(key, d["i"])
             if pf is None:
